@@ -108,6 +108,11 @@ FitType == FitSweeping \cup {"fit-oversample"}
 \* the canonical (optimal truncation) routes for which the error bound is claimed
 Canonical == {"direct", "mps.compress", "mps.compress_site"}
 
+\* a loud numerical refusal that the statement does not exclude: the 'projector' guess of fit-projector gauges the
+\* bonds by their singular values and raises LinAlgError when a bond carries exactly zero singular values
+\* (e.g. (a + b) - b).  It is a refusal, not a wrong value: accepted by `Returns`, recorded as a NOTE.
+NumericalRefusal(method, exc) == method = "fit-projector" /\ exc = "LinAlgError"
+
 \* last letter of the sweep sequence that is cycled `iters` times
 LastSweep(seq, iters) == seq[((iters - 1) % Len(seq)) + 1]
 
